@@ -177,7 +177,7 @@ func (fs *framingState) next(t *rapid.T) wellFormed {
 	return w
 }
 
-const ruleC14 = "a verified full node (real BitcoinNode over loopback TCP; TxManager present or absent, application header handler installed or not) receives a drawn sequence of 1..15 WELL-FORMED frames over the full command set: ping, pong (right/wrong nonce), repeated version/verack, protoconf (first/again), headers (empty, 1..2000 acceptable, refused), inv (0..5000 tx or block items), addr (0..1000), getaddr, reject, unknown and unhandled commands with payloads 0,1,1023/1024/1025,..,4 MB, tx and extended tx up to MBs, blocks (classic/extended) unrequested, requested through RequestBlock with a harness handler, or of the wrong hash, extended unknown and extended classic commands; frames the protocol defines as fatal (second protoconf, refused headers, pong with a wrong nonce) are generated with the model predicting 'node may close'; in half of the cases everything the scripted peer writes is cut into pieces of 1..100 bytes over the first 600 bytes of each send (TCP segmentation at arbitrary offsets); oracle: after the sequence a ping with a fresh nonce is answered by a pong with that nonce, unless a predicted-fatal frame was sent and the node closed; non-trivial = sequence with an extended frame, an unknown command, a payload >= 64 KiB or a block frame; distinct = (txm flag, frame kind list)"
+const ruleC14 = "a verified full node (real BitcoinNode over loopback TCP; TxManager present or absent, application header handler installed or not) receives a drawn sequence of 1..15 WELL-FORMED frames over the full command set: ping, pong (right/wrong nonce), repeated version/verack, protoconf (first/again), headers (empty, 1..2000 acceptable, refused), inv (0..5000 tx or block items), addr (0..1000), getaddr, reject, unknown and unhandled commands with payloads 0,1,1023/1024/1025,..,4 MB, tx and extended tx up to MBs, blocks (classic/extended) unrequested, requested through RequestBlock with a harness handler, or of the wrong hash, extended unknown and extended classic commands; frames the protocol defines as fatal (second protoconf, refused headers, pong with a wrong nonce) are generated with the model predicting 'node may close'; in half of the cases everything the scripted peer writes is cut into pieces of 1..100 bytes over the first 160 bytes of each send (TCP segmentation at arbitrary offsets); oracle: after the sequence a ping with a fresh nonce is answered by a pong with that nonce, unless a predicted-fatal frame was sent and the node closed; non-trivial = sequence with an extended frame, an unknown command, a payload >= 64 KiB or a block frame; distinct = (txm flag, frame kind list)"
 
 func TestProp_C14_framing(t *testing.T) {
 	col := evid.For("C14", "framing", ruleC14)
